@@ -55,13 +55,18 @@ def recorder_checks(ck):
 
 def rowwise_checks(ck):
     rng = ck.rng
-    n_models = 1 if ck.tier == "quick" else 4
+    n_models = 2 if ck.tier == "quick" else 5
     for W in (8, 16, 32, 64):
         for mi in range(n_models):
             in_dim = rng.choice([4, 6, 7])
             widths = [rng.randrange(3, 9), rng.choice([4, 6, 8])]
             k = rng.choice([1, 2])
             model = nets.make_dense(rng, in_dim, widths, k=k, flatten=rng.random() < 0.3)
+            if mi == n_models - 1:
+                # conv -> flatten -> dense x3: buffers that are only partly rewritten per word would leak the previous word's rows
+                in_dim, widths, k = 6, [6, 5, 4], 2
+                model = nets.make_custom(rng, (1, 2, 3), [("conv", dict(K=2, depth=1, rf=2, pad=1)), ("flatten",), ("dense", 6), ("dense", 5),
+                                                          ("dense", 4), ("gs", 2)])
             spec = nets.extract(model)
             net = compiled.build(model, W)
             compiled.compile_net(net, opt=rng.randrange(4))
